@@ -305,7 +305,8 @@ Definition t81_demo_extras : list (Z * list Z) :=
    (238, [65; 100; 111; 98; 101; 0; 100; 0; 0; 0; 0; 0])].
 
 (* t81_encode sel tds tables dht_after extras w h comps P pixels.
-   tables: (id, (BITS, HUFFVAL)); extras: (marker code byte, payload) placed after SOI *)
+   tables: (id, (BITS, HUFFVAL)) with distinct ids 0..3; extras: (marker code byte of an APPn or
+   COM segment, payload) placed after SOI *)
 Definition t81_encode (sel : Z) (tds : list Z) (tables : list (Z * (list Z * list Z)))
            (dht_after : bool) (extras : list (Z * list Z))
            (w h comps P : Z) (pixels : list Z) : option (list Z) :=
@@ -318,7 +319,9 @@ Definition t81_encode (sel : Z) (tds : list Z) (tables : list (Z * (list Z * lis
            && forallb (fun b => (0 <=? b) && (b <? 256)) pixels
            && forallb (fun v => v <? 2 ^ P) (t81_samples P pixels)
            && forallb (fun t => (0 <=? fst t) && (fst t <=? 3) && t81_table_ok (fst (snd t)) (snd (snd t))) tables
-           && forallb (fun e => (0 <=? fst e) && (fst e <? 256) && (Z.of_nat (length (snd e)) <? 65534)) extras)
+           && t81_distinct (map fst tables)
+           && forallb (fun e => (((224 <=? fst e) && (fst e <=? 239)) || (fst e =? 254))
+                                && (Z.of_nat (length (snd e)) <? 65534)) extras)
   then None
   else
     let etabs := map (fun t => (fst t, t81_entries (fst (snd t)) (snd (snd t)))) tables in
